@@ -26,6 +26,18 @@ def sign_map(expr, var_hook):
     return out
 
 
+def _tail_or_pointer(f, upper, ptr, ctx=None):
+    """The upper bound (temporaries read through) is None when `ptr` is 0 and `ptr` otherwise."""
+    from ..names import inlined
+    if upper is None:
+        return False
+    e = inlined(f, upper, ctx=ctx)
+    try:
+        return ev(e, {ptr: 0}) is None and ev(e, {ptr: 3}) == 3 and ev(e, {ptr: -2}) == -2
+    except Undecidable:
+        return False
+
+
 def check(run):
     repo = run.repo
     ml = repo.cls('pyclifford', 'MeasureLayer')
@@ -182,6 +194,9 @@ def check(run):
                     run.check(lo == NEW and up is None and init_zero, 'R13.slice', bw, c, 'the last measurement layer consumes the tail [new_pointer:] of the record')
                 elif ok1:
                     run.check(lo == NEW and up == PTR and init_zero, 'R13.slice', bw, c, 'an earlier measurement layer consumes [new_pointer:pointer] (offsets from the end)')
+                elif _tail_or_pointer(bw, sl.upper, PTR, ctx) and lo == NEW:
+                    # one slice whose upper bound is `pointer`, or None when pointer == 0: the two-branch form in one expression
+                    run.check(init_zero, 'R13.slice', bw, c, 'offsets from the end: the pointer starts at 0 and the last layer consumes the tail of the record')
                 else:
                     ok = lo == NEW and up == PTR and (init_len or (exact_len and init is not None and norm(init) == 'self.num_of_measures'))
                     run.check(ok, 'R13.slice', bw, c, 'a uniform slice [new_pointer:pointer] of %s must start from the END of the record (pointer = len(record)): '
